@@ -687,11 +687,18 @@ func (s *Scheduler) resolveSyncCommDuties(ctx context.Context, slot core.Slot, v
 			currEpoch = slot.Epoch()
 		)
 
+		// Clone before storing: the definition must not share the ValidatorSyncCommitteeIndices
+		// backing array with the duty returned by the eth2 client.
+		syncCommDef, err := core.NewSyncCommitteeDefinition(syncCommDuty).Clone()
+		if err != nil {
+			return err
+		}
+
 		for sl := startSlot; sl.Epoch() == currEpoch; sl = sl.Next() {
 			// Schedule sync committee contribution aggregation.
 			duty := core.NewSyncContributionDuty(sl.Slot)
 
-			s.setDutyDefinition(duty, slot.Epoch(), pubkey, core.NewSyncCommitteeDefinition(syncCommDuty))
+			s.setDutyDefinition(duty, slot.Epoch(), pubkey, syncCommDef)
 		}
 
 		syncResolvedPubkeys = append(syncResolvedPubkeys, pubkey.String())
